@@ -22,15 +22,20 @@ impl Parsable for Glue {
                         super::dimen::scan_and_apply_units(
                             input,
                             first_token,
-                            i.abs(),
+                            i.saturating_abs(),
                             Scaled::ZERO,
                             None,
                         )? * negative
                             * i.signum()
                     }
-                    InternalNumber::Dimen(d) => d * negative,
+                    InternalNumber::Dimen(d) => negate_if(d, negative),
                     InternalNumber::Glue(g) => {
-                        return Ok(g * negative);
+                        return Ok(Glue {
+                            width: negate_if(g.width, negative),
+                            stretch: negate_if(g.stretch, negative),
+                            shrink: negate_if(g.shrink, negative),
+                            ..g
+                        });
                     }
                 }
             }
@@ -51,6 +56,15 @@ impl Parsable for Glue {
             g.shrink = super::dimen::scan_dimen(input, Some(&mut g.shrink_order))?
         };
         Ok(g)
+    }
+}
+
+/// Applies a sign of +1 or -1 without overflowing on -2^31 (which saturates).
+fn negate_if(s: Scaled, sign: i32) -> Scaled {
+    if sign < 0 {
+        Scaled(s.0.saturating_neg())
+    } else {
+        s
     }
 }
 
